@@ -676,16 +676,32 @@ func (db *DB) searchAll(o Object, field, operator string, value interface{}, con
 		return &Search{db: db, err: err}
 	}
 
+	searchType := search.valueTypeString()
+
+	// arguments are checked first, as they are for an indexed field, so that
+	// errors depend neither on indexing nor on the content of the collection
+	if fd, ok := s.Fields[field]; ok {
+		if cast, ok := fd.castType(); ok && cast != searchType {
+			return &Search{db: db, err: fmt.Errorf("%w, cannot cast %T(%v) to %s", ErrCasting, value, value, cast)}
+		}
+	}
+
 	// the operator is checked first as evaluate panics on unknown operator
 	switch operator {
-	case "=", "!=", ">", ">=", "<", "<=", "~=":
+	case "=", "!=", ">", ">=", "<", "<=":
+	case "~=":
+		// evaluate cannot report an invalid pattern
+		if pattern, ok := search.Value.(string); ok {
+			if _, err = regexp.Compile(pattern); err != nil {
+				return &Search{db: db, err: err}
+			}
+		}
 	default:
 		return &Search{db: db, err: fmt.Errorf("%w %s", ErrUnkownSearchOperator, operator)}
 	}
 
 	// we go through the iterator
 	fp := fieldPath(field)
-	searchType := search.valueTypeString()
 
 	// err must not be shadowed here, otherwise an unreadable
 	// object silently truncates the results
